@@ -251,11 +251,13 @@ def maskHitsUser (v : User) (timeout now : Int) (hm : Str) : Bool :=
      | none => false)
 
 /-- the overlap loops of `setUser`: some mask of `u`, read as a hostmask, is accepted by another
-user's `checkHostmask`, or, read as a pattern, matches another user's mask read as a string -/
+user's `checkHostmask`, or, read as a pattern, matches another user's mask read as a string, or has
+a hostmask in common with it (`hostmaskPatternsIntersect`) -/
 def overlaps (users : List User) (timeout now : Int) (u : User) : Bool :=
   u.hostmasks.any fun hm =>
     users.any fun v =>
-      v.id != u.id && (maskHitsUser v timeout now hm || v.hostmasks.any (fun o => glob hm o))
+      v.id != u.id &&
+        (maskHitsUser v timeout now hm || v.hostmasks.any (fun o => glob hm o || intersect hm o))
 
 /-- the record `setUser(u)` works with after its name lookup: the stored one when `u` is the
 stored object itself (`live`), else `u` as passed -/
@@ -368,21 +370,31 @@ def withUser (st : St) (id : Nat) (f : User → St × Out) : St × Out :=
   | some u => f u
   | none => (st, .noUser)
 
+/-- `user register` after `newUser()` and `user.name = name`: add the sender's hostmask, `setUser`;
+`except Exception: ircdb.users.delUser(user.id); raise` -/
+def registerTail (st1 : St) (u0 : User) (h : Option Str) : St × Out :=
+  match h with
+  | none =>
+    let s := setUser st1 u0
+    (match s.2 with
+     | .ok _ => (s.1, .done)
+     | .error e => ((delUser s.1 u0.id).1, .err e))
+  | some h =>
+    match addHostmask u0 h with
+    | .error e => ((delUser st1 u0.id).1, .err e)
+    | .ok u1 =>
+      let s := setUser { st1 with db := st1.db.putUser u1 } u1
+      (match s.2 with
+       | .ok _ => (s.1, .done)
+       | .error e => ((delUser s.1 u0.id).1, .err e))
+
 def step (st : St) : Op → St × Out
   | .register name h =>
     if hasLineBreak name then (st, .err .value) else      -- the plugin refuses such names first
     let r := newUser st
     let u0 : User := { id := r.2, name := name }
     let st1 := { r.1 with db := r.1.db.putUser u0 }
-    match h with
-    | none => let s := setUser st1 u0; (s.1, outOfUnit s.2)
-    | some h =>
-      match addHostmask u0 h with
-      | .error e => (st1, .err e)
-      | .ok u1 =>
-        let st2 := { st1 with db := st1.db.putUser u1 }
-        let s := setUser st2 u1
-        (s.1, outOfUnit s.2)
+    registerTail st1 u0 h
   | .addHost id h => withUser st id fun u =>
       match addHostmask u h with
       | .error e => (st, .err e)
